@@ -130,7 +130,7 @@ TEXT = {
     "C19": {
         "text": "Exploration: every method of the protocol service (by reflection over the server interface; streaming ones through an in-memory stream) is called in-process under recover with requests generated field by field from pools of edge values, values harvested from the live service and their corrupted variants, "
                 "in seeded sequences interleaved with activation/deactivation of the account group and other groups; a second unit sweeps every method one field at a time around a baseline request that is valid for the live service (unset, edge bytes, every harvested value and its corrupted copy, every defined and three undefined enum numbers, every known invitation under every group type), "
-                "with the account group active and again after its deactivation; a third unit issues every short sequence of valid contact-request RPCs on a NEW account and follows the background handler that acts on them (its panic ends the process); a fourth unit, under the race detector, serves six requests of one method at once for every unary method (a race report in the request handlers counts as a violation: it is what ends the process as 'concurrent map writes' in a normal build); the exported decode/decrypt helpers get random and malformed inputs. Only a panic (or a dead process) counts.",
+                "with the account group active and again after its deactivation; a third unit issues every short sequence of valid contact-request RPCs on a NEW account and follows the background handler that acts on them (its panic ends the process); a fourth unit, under the race detector, serves six requests of one method at once for every unary method (a race report in the request handlers counts as a violation: it is what ends the process as 'concurrent map writes' in a normal build); a fifth unit deactivates the account group while a contact-request handler is in flight (random offsets, and forced: the request parked right after its append by a slow subscriber of the log's write events); the exported decode/decrypt helpers get random and malformed inputs. Only a panic (or a dead process) counts.",
         "note": "In-process calls: a recovered panic is the observation. Calls blocked on external services are cancelled after 3 s.",
         "technique": "runtime monitoring: reflection-driven request fuzzing plus one-field-at-a-time and pairwise sweeps around valid baselines of all RPC handlers in both activation states, with panic capture",
     },
